@@ -125,11 +125,26 @@ def run(rep, tier, seed):
                 if i not in ok:
                     rep.violation({"key": "lin-g%d-%d" % (g, i), "what": "concurrent history of %d goroutines has no linearization explained by the map semantics (or wrong quiescent contents)" % g,
                                    "kind": "lin", "replay": hrec, "features": ["vmap_conc"]})
+        # 5. amplified scenarios: 32 keys driven into one internal shape, one goroutine writes them in turn while another restructures the map
+        amp = w.path("amp.ndjson")
+        p = run_vh(["vmap-amp", "-out", amp, "-reps", "120" if thorough else "40"], env={"VERIF_SEED": str(seed)}, timeout=3000)
+        sa = json.loads(p.stdout.strip().splitlines()[-1])
+        r = tlc_must_pass(run_tlc(w, "Trace_VMapLin", "Trace_VMapLin_amp.cfg", env={"TRACE": amp}, workers=8, timeout=6000, heap="16g"), "Trace_VMapLin (amplified)")
+        ok = set(int(re.match(r'<<"LINOK", (\d+)>>', l).group(1)) for l in r.prints("LINOK"))
+        ha = read_ndjson(amp)
+        for i, hrec in enumerate(ha, 1):
+            if i not in ok or not hrec["stable"]:
+                rep.violation({"key": "lin-amp-%s-%d" % (hrec["scenario"].replace("/", "-"), i),
+                               "what": "scenario %s: the history of two goroutines over 32 keys has no linearization explained by the map semantics, or the quiescent contents are wrong / differ between two observations (final %s)" % (
+                                   hrec["scenario"], json.dumps(hrec["final"])[:200]),
+                               "kind": "lin", "replay": hrec, "features": ["vmap_conc", "vmap_amp"]})
+        tot_hist += len(ha)
+        rep.set("trace_amplified", {"histories": len(ha), "scenarios": sa["scenarios"], "keys_per_history": 32})
         rep.set("trace_conc", {"histories": tot_hist, "overlapping_same_key_pairs": overlap})
         rep.set("traces_validated_against_impl", s["histories"] + tot_hist + rep.cov["trace_seq"]["histories"])
         rep.set("evaluations", total_cases + rep.cov["trace_seq"]["histories"] + tot_hist)
         rep.set("distinct_nontrivial", nontriv)
-        rep.set("rule", "replay cases are all distinct call sequences (length>=2 counted as non-trivial); traces are random histories of 40-60 calls; concurrent histories have 2-4 goroutines with per-round barriers")
+        rep.set("rule", "replay cases are all distinct call sequences (length>=2 counted as non-trivial); traces are random histories of 40-60 calls; concurrent histories have 2-4 goroutines with per-round barriers; amplified scenarios = internal shape x writer operation x restructuring operation, repeated")
         rep.set("exhaustive", True)
 
 
